@@ -137,6 +137,12 @@ theorem bitfont_needs_zero_guard (hg : glyphZeroGuard = false) (d : List Nat) (o
     glyphsFrom 0 d.toArray o = .panic sDiverge :=
   glyphsFrom_needs_guard hg d.toArray o (by simpa using ho)
 
+/-- every font `BitFont::from_bytes` accepts has a width and a height different from 0 (`psf1ZeroRejected`: the PSF1 guard is in the
+    source): this is what makes the cell-size division of `parse_with_parser` safe for a font loaded by `CTerm:Font` into slot 0 -/
+theorem bitfont_size_nonzero (d : List Nat) (hbig : d.length < 1099511627776) (f : Font) (h : fontFromBytes d.toArray = .ok f) :
+    f.w ≠ 0 ∧ f.h ≠ 0 :=
+  fontFromBytes_size glyph_guard_present (by decide) d.toArray (by simpa using hbig) f h
+
 /-- the five palette importers (`Palette::load_palette`: UTF-8 check, line loop, regex matches, `parse::<u32>()?`,
     `from_str_radix(_, 16)?`, `as u8`) and the extension dispatch of `import_palette`: never a panic, for ALL byte strings,
     every format, every extension (known, unknown or missing) -/
@@ -184,6 +190,7 @@ def knownSiteIds : List Nat := [
   156334085594325,   -- load_psf2: expected as usize (error message)                  -> wrapping cast
   8650048178242,   -- load_psf2: &data[headersize..]                                -> slice
   131448068814851,   -- from_bytes: data[0..2].try_into().unwrap()                    -> rdU16s
+  251599850650885,   -- from_bytes: if data[3] == 0 (PSF1 character size 0 is rejected)  -> rd
   89905606661340,   -- from_bytes: data[0..4].try_into().unwrap()                    -> rdU32
   95741062839190,   -- calculate_checksum: char::from_u32(ch as u32)                 -> cksumIters (checked conversion)
   244011783155096,   -- create_8: height as usize (u8)                                -> XBin/ADF/IDF models (Model/Loaders)
@@ -255,9 +262,10 @@ example : loadIdf #[4, 49, 46, 52, 0, 0, 0, 0, 79, 0, 0, 0, 65, 7] none = .err :
 /-- extension dispatch is case-insensitive and falls back to the ANSI loader -/
 example : loaderFor "XB" = "xbinary" ∧ loaderFor "an7" = "renegade" ∧ loaderFor "zzz" = "ansi" := by decide +kernel
 
-/-- fonts: a PSF1 header announcing height 0 in front of data loads as an empty font (the pinned tree never returned);
+/-- fonts: a PSF1 header announcing height 0 in front of data is an error (the pinned tree never returned; after the first repair
+    it loaded as an empty font of height 0, which `parse_with_parser` then divided by — now rejected like `charsize <= 0` in PSF2);
     PSF1 with 2 complete glyphs and a ragged tail; PSF2 whose length field contradicts the file; raw data by length -/
-example : fontFromBytes #[0x36, 0x04, 0, 0, 1, 2, 3] = .ok ⟨8, 0, 256, 0, 0, 256⟩ := by decide
+example : fontFromBytes #[0x36, 0x04, 0, 0, 1, 2, 3] = .err := by decide
 example : fontFromBytes #[0x36, 0x04, 1, 2, 1, 2, 3, 4, 5] = .ok ⟨8, 2, 512, 2, 2, 512⟩ := by decide
 example : fontFromBytes (#[0x72, 0xb5, 0x4a, 0x86, 0,0,0,0, 32,0,0,0, 0,0,0,0, 255,255,255,127, 16,0,0,0, 16,0,0,0, 8,0,0,0]) = .err := by decide
 example : fontFromBytes #[1, 2, 3] = .err := by decide
@@ -272,6 +280,6 @@ example : palLoad .pal ("JASC-PAL\n0100\n1\n4294967296 2 3\n".toList.map Char.to
 example : palLoad .gpl ("GIMP Palette\n".toList.map Char.toNat ++ [0xD9, 0xA1, 32, 0xD9, 0xA2, 32, 0xD9, 0xA3, 10]) = .err := by decide +kernel
 example : palLoad .hex [0x66, 0x66, 0xFF] = .err := by decide +kernel
 example : palImport (some "PAL") [] = .ok [] ∧ palImport (some "ice") [] = .err ∧ palImport none [] = .err := by decide +kernel
-example : knownSiteIds.length = 36 := by decide
+example : knownSiteIds.length = 37 := by decide
 
 end IcyVerif.C02
